@@ -244,7 +244,8 @@ class CircuitTemplate(AbstractBaseTemplate):
         if circuits:
             circuits = update_dict(self.circuits, circuits)
         else:
-            circuits = self.circuits
+            # a new template must not share its (mutable) sub-circuits with the template it was derived from
+            circuits = self.circuits if in_place else deepcopy(self.circuits)
 
         if edges:
             edges = update_edges(self.edges, edges)
